@@ -309,3 +309,47 @@ def _build_ns3():
 
 
 _build_ns3()
+
+
+@scope("to_triplets")
+def to_triplets(rng):
+    for n in (2, 3, 1):
+        for n_cpu in (1, 2, 4):
+            for mode in ("None", "'hamming'", CUSTOM_FNS[2]):
+                seqs = [rng.choice(["AAA", "AAC", "ACC", "CCC"]) for _ in range(n)]
+                yi = [[j for j in range(n)] for _ in range(n)]
+                yield {"seqs": seq([S(x) for x in seqs], "ndarray"), "y_indices": py(repr(yi)), "max_edits": I(1), "limit": NONE,
+                       "n_cpu": I(n_cpu), "custom_distance": py(mode), "max_cust_dist": {"t": "inf"}}
+
+
+def _aa_calls(rng, with_compression):
+    for _ in range(400):
+        n = rng.randint(1, 5)
+        seqs = [rng.choice(AA_POOL) for _ in range(n)]
+        rec = {"seqs": seq([S(x) for x in seqs], rng.choice(["list", "ndarray", "list"])), "max_edits": I(rng.choice([1, 1, 2])),
+               "max_returns": NONE, "n_cpu": I(rng.choice([1, 1, 1, 2, 7])), "custom_distance": py(rng.choice(CUSTOM_FNS[:3] + CUSTOM_FNS[4:])),
+               "max_custom_distance": rng.choice([{"t": "inf"}, R(1), R(20)]),
+               "output_type": {"t": "const", "v": rng.choice(["triplets", "triplets", "coo_matrix"])}}
+        if with_compression:
+            rec["compression"] = rng.choice([I(1), I(1), I(3), R(2.5), I(25)])
+        else:
+            rec["progress"] = {"t": "const", "v": False}
+        if rng.random() < 0.2:
+            rec["seqs"] = seq(rec["seqs"]["items"], "Series", rng.sample(range(2, 2 + n), n))
+        yield rec
+
+
+@scope("search_calls_kdtree")
+def search_calls_kdtree(rng):
+    return _aa_calls(rng, True)
+
+
+@scope("search_calls_aa")
+def search_calls_aa(rng):
+    return _aa_calls(rng, False)
+
+
+@scope("kdtree_leven_calls")
+def kdtree_leven_calls(rng):
+    for rec in _aa_calls(rng, True):
+        yield rec
